@@ -114,6 +114,7 @@ type PreemptQueueObsAll struct {
 }
 
 type PreemptCase struct {
+	Stream     string                        `json:"stream,omitempty"` // generator stream ("" = the general ones, "extra")
 	Spec       objects.VerifPreemptWorldSpec `json:"spec"`
 	Plugin     []PreemptPlugin               `json:"plugin"`
 	NodesTried bool                          `json:"nodes_tried"`
@@ -162,7 +163,7 @@ func (p *preemptPluginT) PreemptionPredicates(a *si.PreemptionPredicatesArgs) *s
 	}
 	return &si.PreemptionPredicatesResponse{Success: true, Index: a.StartIndex + ans.Delta}
 }
-func (p *preemptPluginT) SendEvent([]*si.EventRecord)                                               {}
+func (p *preemptPluginT) SendEvent([]*si.EventRecord)                                              {}
 func (p *preemptPluginT) UpdateContainerSchedulingState(*si.UpdateContainerSchedulingStateRequest) {}
 
 var preemptInitOnce sync.Once
@@ -448,21 +449,27 @@ From Coq Require Import List NArith ZArith. Import ListNotations.`
 func preemptEngine(o *Opts) {
 	preemptInit()
 	rng := NewRng(o.Seed)
-	st := NewStats("preempt", o.Seed, "generated worlds: queue trees (2-9 queues, up to 3 levels, any mix of preemption policy default/fence/disabled, priority policy default/fence, offsets, guaranteed/max over sparse resource types, sibling names that are string prefixes of each other), 0-14 allocations over 1-4 nodes with priorities/flags (allowPreemptSelf, originator, required node, released, preempted) and one ask; half of the worlds are biased towards a starving ask queue next to over-guarantee siblings on nearly full nodes; stub predicate plugin with generated answers; required-node worlds; quota preemption histories (reconfigure / advance clock / add usage / trigger); non-trivial = at least one victim was preempted; distinct by hash of world + observations")
+	st := NewStats("preempt", o.Seed, "generated worlds (40% of the budget): queue trees (2-9 queues, up to 3 levels, any mix of preemption policy default/fence/disabled, priority policy default/fence, offsets, guaranteed/max over sparse resource types, sibling names that are string prefixes of each other), 0-14 allocations over 1-4 nodes with priorities/flags (allowPreemptSelf, originator, required node, released, preempted) and one ask; half of the worlds are biased towards a starving ask queue next to over-guarantee siblings on nearly full nodes; stub predicate plugin with generated answers; required-node worlds; quota preemption histories (reconfigure / advance clock / add usage / trigger); 20%: stream extra (small worlds for the second pass / additional victims: ask and victims with different resource types and sizes, 2-3 victim queues each just above / at / below its guarantee per type, victims on the chosen node and on other nodes, nodes with room for the ask / full / too small, ask queue able to absorb exactly / almost / more than a victim, prefix queue names); 13%: stream qtime (one queue, 2-4 reloads of max and delay: first / further lowering, raising below / to / above the usage, unchanged, mixed, type added or dropped, removed, delay same / longer / shorter / 0 / unset; triggers one second before and at every candidate start time; usage steps climbing to exactly the max and one above; hold / reload while running / done); non-trivial = at least one victim was preempted; distinct by hash of world + observations")
 	st.Samples = []any{}
 	var all PreemptCases
 	if o.Replay != "" {
 		readJSON(o.Replay, &all)
 	} else {
-		nq := o.N * 6 / 10
-		for i := 0; i < nq; i++ {
+		// a fixed share of the budget goes to the boundary-value streams (small worlds: "extra", "qtime")
+		for i := 0; i < o.N*40/100; i++ {
 			all.Queue = append(all.Queue, genPreemptCase(rng.Fork(), st))
 		}
-		for i := 0; i < o.N*2/10+1; i++ {
+		for i := 0; i < o.N*20/100; i++ {
+			all.Queue = append(all.Queue, genPreemptExtra(rng.Fork(), st))
+		}
+		for i := 0; i < o.N*15/100+1; i++ {
 			all.ReqNode = append(all.ReqNode, genPreemptRNCase(rng.Fork()))
 		}
-		for i := 0; i < o.N*2/10+1; i++ {
+		for i := 0; i < o.N*12/100+1; i++ {
 			all.Quota = append(all.Quota, genPreemptQuoCase(rng.Fork()))
+		}
+		for i := 0; i < o.N*13/100; i++ {
+			all.Quota = append(all.Quota, genPreemptQTime(rng.Fork(), st))
 		}
 	}
 	qTerms := []string{}
@@ -490,6 +497,9 @@ func preemptEngine(o *Opts) {
 			st.Count("queue.committed")
 			st.Count(fmt.Sprintf("queue.victims_%d", min(len(ob.Marked), 4)))
 		}
+		if c.Stream != "" {
+			preemptStreamStats(st, c)
+		}
 		st.Case(t, c.nontrivial(), map[string]any{"kind": "queue", "queues": len(c.Spec.Queues), "allocations": len(c.Spec.Allocs), "nodes": len(c.Spec.Nodes), "ask": c.Spec.Ask, "try": ob.Try, "marked": ob.Marked})
 	}
 	rTerms := []string{}
@@ -514,6 +524,9 @@ func preemptEngine(o *Opts) {
 		t := c.coq()
 		uTerms = append(uTerms, t)
 		st.Count("quota.case")
+		if c.Stream != "" {
+			preemptQuoStreamStats(st, c)
+		}
 		nt := false
 		for _, s := range c.Steps {
 			st.Count("quota.op." + s.Op)
@@ -539,11 +552,116 @@ func preemptEngine(o *Opts) {
 	b.WriteString("Definition queue_cases : list queue_case := [\n " + strings.Join(qTerms, ";\n ") + "\n].\n")
 	b.WriteString("Definition reqnode_cases : list reqnode_case := [\n " + strings.Join(rTerms, ";\n ") + "\n].\n")
 	b.WriteString("Definition quota_cases : list quota_case := [\n " + strings.Join(uTerms, ";\n ") + "\n].\n")
-	b.WriteString("Definition M := Eval vm_compute in (queue_check queue_cases ++ reqnode_check reqnode_cases ++ quota_check quota_cases).\nPrint M.\n")
+	qStreams, uStreams := make([]string, len(all.Queue)), make([]string, len(all.Quota))
+	for i := range all.Queue {
+		qStreams[i] = coqBool(all.Queue[i].Stream == "extra")
+	}
+	for i := range all.Quota {
+		uStreams[i] = coqBool(all.Quota[i].Stream == "qtime")
+	}
+	// which cases belong to the boundary-value streams (coverage counters only)
+	b.WriteString("Definition queue_extra : list bool := " + coqList(qStreams) + ".\n")
+	b.WriteString("Definition quota_qtime : list bool := " + coqList(uStreams) + ".\n")
+	b.WriteString("Definition M := Eval vm_compute in (queue_check queue_cases ++ reqnode_check reqnode_cases ++ quota_check quota_cases ++ queue_info queue_extra queue_cases ++ quota_info quota_qtime quota_cases).\nPrint M.\n")
 	writeFile(base+".v", b.String())
 	writeJSON(base+".json", all)
 	st.CasesFile, st.CasesJSON = base+".v", base+".json"
 	st.Write(base + ".stats.json")
+}
+
+// preemptStreamStats: what the "extra" stream reached, as far as it is visible from outside (the exact counters of the
+// additional-victims pass come from the model: kinds 910.. of the checker)
+func preemptStreamStats(st *Stats, c *PreemptCase) {
+	p := c.Stream + "."
+	ob := c.Obs
+	st.Count(p + "case")
+	if ob == nil || ob.Crash != "" {
+		return
+	}
+	if ob.Pre {
+		st.Count(p + "preconditions_ok")
+	}
+	if len(ob.Find) > 0 {
+		st.Count(p + "has_potential_victims")
+	}
+	if len(ob.Find) > 1 {
+		st.Count(p + "several_victim_queues")
+	}
+	if ob.Guar != nil && *ob.Guar {
+		st.Count(p + "guarantee_check_ok")
+	}
+	if ob.Try == nil || !ob.Try.Ok {
+		return
+	}
+	st.Count(p + "committed")
+	st.Count(fmt.Sprintf(p+"victims_%d", min(len(ob.Marked), 4)))
+	node := ob.Try.Node
+	fits := node < len(ob.Nodes)
+	if fits {
+		for k, v := range c.Spec.Ask.Res {
+			if ob.Nodes[node].Available.M[k] < v {
+				fits = false
+			}
+		}
+	}
+	other := false
+	for _, m := range ob.Marked {
+		if m < len(c.Spec.Allocs) && c.Spec.Allocs[m].Node != node {
+			other = true
+		}
+	}
+	hetero := false
+	for _, m := range ob.Marked {
+		if m < len(c.Spec.Allocs) && !preemptResEqualTypes(c.Spec.Allocs[m].Res, c.Spec.Ask.Res) {
+			hetero = true
+		}
+	}
+	if fits && len(ob.Marked) > 0 {
+		st.Count(p + "committed_all_victims_from_additional_pass") // the node had room: calculateVictimsByNode returned no victim
+	}
+	if other {
+		st.Count(p + "committed_victim_on_other_node")
+	}
+	if hetero {
+		st.Count(p + "committed_victim_types_differ_from_ask")
+	}
+}
+
+func preemptResEqualTypes(a, b map[string]int64) bool {
+	if len(a) != len(b) {
+		return false
+	}
+	for k := range a {
+		if _, ok := b[k]; !ok {
+			return false
+		}
+	}
+	return true
+}
+
+func preemptQuoStreamStats(st *Stats, c *PreemptQuoCase) {
+	p := c.Stream + "."
+	st.Count(p + "case")
+	reloads := 0
+	for _, s := range c.Steps {
+		if s.Obs == nil {
+			break
+		}
+		st.Count(p + "op." + s.Op)
+		if s.Op == "reconf" {
+			reloads++
+			if s.Obs.Times[s.Queue].StartSet {
+				st.Count(p + "reload_leaves_start_time_set")
+			}
+		}
+		if (s.Op == "trigger" || s.Op == "hold") && s.Obs.Acquired {
+			st.Count(p + "acquired")
+		}
+		if s.Op == "usage" && s.Obs.Times[s.Queue].StartSet {
+			st.Count(p + "usage_leaves_start_time_set")
+		}
+	}
+	st.Count(fmt.Sprintf(p+"reloads_%d", min(reloads, 6)))
 }
 
 func init() { engines["preempt"] = preemptEngine }
